@@ -77,7 +77,7 @@ func constReturn(f *ssa.Function) (int64, bool) {
 	if len(rs) != 1 || len(rs[0].Results) != 1 {
 		return 0, false
 	}
-	return constInt(rs[0].Results[0])
+	return constInt(retVal(rs[0], 0))
 }
 
 func (c *Ctx) method(named *types.Named, name string) *ssa.Function {
@@ -280,7 +280,7 @@ func (c *Ctx) compareShape(rule, name string, named *types.Named, fam string) {
 			if !ok || len(r.Results) != 2 {
 				return 0, false
 			}
-			return constInt(r.Results[0])
+			return constInt(retVal(r, 0))
 		}
 		switch bo.Op {
 		case token.LSS:
